@@ -349,7 +349,11 @@ EXTRA_TEXT = {
     "C19": " The loader model includes rel=\"alternate\" links (Origin.alt, recursion bounded by maxHops = the repaired code's bound): the invariant, load_fresh (returned document is Allowed: current - "
            "directly or through the page's link -, fresh storable, embedded), only_storable_received, failure_not_returned hold for every hop count; alternate_loop_is_error (defect D19, fixed) and "
            "alternate_page_reuses_target_document (known finding F9) are proved witnesses.",
-    "C07": " Known finding F8: status nonces are read back through float64 inside VerifyProof; the model receives the nonce as the verifier reads it (oracle column).",
+    "C15": " Which properties are undefined is no longer told to the model: it is computed from the abstract document and its contexts (Ctx.undefinedProps: term lookup under the node's base context "
+           "plus its type-scoped contexts, property-scoped contexts for values, the count taken over the whole tree), and safe_success_stores_every_path proves that after a safe-mode success every dotted path "
+           "addressing something in the document - any depth, array positions included - has a stored key under the specification of expansion (Ctx.storedKey). Also driven: MerklizeJSONLD through the "
+           "library's own HTTP loader and cache over histories with re-published contexts, expiry and transient origin failures (a success is the merklization under one published revision).",
+    "C07": " The same verification also runs through verifiable.HTTPDIDResolver against a scripted gateway (transient 5xx): same verdict, same questions asked. Known finding F8: status nonces are read back through float64 inside VerifyProof; the model receives the nonce as the verifier reads it (oracle column).",
 }
 for _pid, _t in EXTRA_TEXT.items():
     MANIFEST_TEXT[_pid]["text"] = MANIFEST_TEXT[_pid]["text"] + _t
